@@ -36,6 +36,12 @@ structure Loc where
   line : Nat
 deriving Repr, Inhabited, BEq, DecidableEq
 
+/-- a user finalize hook as data: the bindings it returns (`none` = returns `None`), or raising -/
+structure Hook where
+  ret : Option (List (Key × Val)) := none
+  raises : Bool := false
+deriving Repr, Inhabited
+
 structure State where
   registry : SelMap Entry := SelMap.empty
   config : Store := []
@@ -46,6 +52,8 @@ structure State where
   constants : SelMap Val := SelMap.empty
   singletons : AList String Val := []
   imports : List String := []
+  /-- user finalize hooks, in registration order (data-driven: what each returns / whether it raises) -/
+  hooks : List Hook := []
   /-- per-target call counters of the probe configurables -/
   calls : AList Sel Nat := []
 deriving Inhabited
@@ -104,6 +112,9 @@ structure RegReq where
   listTypesOk : Bool := true
   objId : Nat
   isMethod : Bool := false
+  /-- selectors of already registered functions that are methods of the class being registered
+      (`_find_registered_methods`, only for `register` / `external_configurable`) -/
+  methods : List Sel := []
 deriving Inhabited
 
 /-- the `Configurable` record a successful registration stores -/
@@ -111,23 +122,35 @@ def RegReq.cfgable (r : RegReq) : Cfgable :=
   { selector := (r.module.getD []) ++ r.name, sig := r.sig, allow := r.allow, deny := r.deny,
     isMethod := r.isMethod }
 
+/-- a different object is already registered under the same complete name (waived in
+    interactive mode) -/
+def clashes (st : State) (r : RegReq) : Bool :=
+  match st.registry.get? r.cfgable.selector with
+  | some e => !st.interactive && e.objId != r.objId
+  | none => false
+
+/-- registered methods move under the class: `m.meth` ↦ `m.Cls.meth`, addressable only with the class -/
+def renameMethods (reg : SelMap Entry) (selector : Sel) (methods : List Sel) : SelMap Entry :=
+  methods.foldl (fun (reg : SelMap Entry) old =>
+    match reg.pop old with
+    | none => reg
+    | some (e, reg') =>
+      let new := selector ++ [old.getLastD ""]
+      reg'.set new { e with cfg := { e.cfg with selector := new, isMethod := true } }) reg
+
 def register (st : State) (r : RegReq) : Except Err State :=
   if st.locked then .error .runtimeError else
   if !r.nameValid then .error .valueError else
   -- a dotted name ignores the default module but not an explicit one: the harness passes the
   -- effective module (explicit, or `__module__` when the name is a plain identifier)
   if !r.moduleValid then .error .valueError else
-  let c := r.cfgable
-  let selector : Sel := c.selector
-  let clash := match st.registry.get? selector with
-    | some e => !st.interactive && e.objId != r.objId
-    | none => false
-  if clash then .error .valueError else
+  if st.clashes r then .error .valueError else
   if !r.allow.isEmpty && !r.deny.isEmpty then .error .valueError else
   if !r.listTypesOk then .error .typeError else
   if !(r.allow.all r.sig.mightHave) || !(r.deny.all r.sig.mightHave) then .error .valueError else
-  if !c.requiredKwargsValid then .error .valueError else
-  .ok { st with registry := st.registry.set selector { cfg := c, objId := r.objId } }
+  if !r.cfgable.requiredKwargsValid then .error .valueError else
+  .ok { st with registry := (renameMethods st.registry r.cfgable.selector r.methods).set
+                  r.cfgable.selector { cfg := r.cfgable, objId := r.objId } }
 
 /-! ### calling a configurable under an active scope -/
 
@@ -157,5 +180,209 @@ def call (ev : Val → Val) (st : State) (full : Sel) (σ : Scope) (args : List 
           let n := (AList.lookup full st.calls).getD 0
           ({ st with calls := AList.set full (n + 1) st.calls }, .received r (.result full n))
 
+
+/-! ### finalize (2643-2675) and the built-in hooks (2847-2883) -/
+
 end State
+
+mutual
+  /-- `_iterate_flattened_values`: strings are leaves, mappings contribute their values only,
+      other iterables their elements; the value itself comes last. -/
+  def flattenVal : Val → List Val
+    | .list xs => flattenVals xs ++ [.list xs]
+    | .tuple xs => flattenVals xs ++ [.tuple xs]
+    | .set xs => flattenVals xs ++ [.set xs]
+    | .dict kvs => flattenDictVals kvs ++ [.dict kvs]
+    | v => [v]
+  def flattenVals : List Val → List Val
+    | [] => []
+    | x :: xs => flattenVal x ++ flattenVals xs
+  def flattenDictVals : List (Val × Val) → List Val
+    | [] => []
+    | (_, v) :: rest => flattenVal v ++ flattenDictVals rest
+end
+
+namespace State
+
+def macroSel : Sel := ["gin", "macro"]
+def constSel : Sel := ["gin", "constant"]
+
+def allValues (cfg : Store) : List Val :=
+  cfg.flatMap (fun kv => kv.2.flatMap (fun pv => flattenVal pv.2))
+
+/-- `validate_macros_hook`: every reference to the macro configurable must have a bound value in its
+    own scope and must be evaluated. -/
+def macroRefOk (cfg : Store) : Val → Bool
+  | .macro name => AList.contains ((if name.isEmpty then [] else name.splitOn "/"), macroSel) cfg
+  | .ref scopes sel ev => if sel == macroSel then ev && AList.contains (scopes, macroSel) cfg else true
+  | _ => true
+
+/-- `find_unknown_references_hook` -/
+def isUnknownRef : Val → Bool
+  | .unknownRef _ _ => true
+  | _ => false
+
+/-- `find_missing_overrides_hook`: a parameter bound (at top level) to a constant whose value is the
+    REQUIRED marker. -/
+def isRequiredConst (st : State) : Val → Bool
+  | .const name => match st.constants.get? name with
+      | some v => v.isRequired
+      | none => false
+  | _ => false
+
+def builtinHooksOk (st : State) : Bool :=
+  (allValues st.config).all (macroRefOk st.config)
+  && !(allValues st.config).any isUnknownRef
+  && !(st.config.any (fun kv => kv.2.any (fun pv => isRequiredConst st pv.2)))
+
+/-- collects the updates of the user hooks: each key is normalised; two updates of one parameter
+    (however spelled) conflict -/
+def collectHooks (st : State) : List Hook → List ((Scope × Sel × String) × Val) →
+    Except Err (List ((Scope × Sel × String) × Val))
+  | [], acc => .ok acc
+  | h :: rest, acc =>
+    if h.raises then .error (.other "HookError") else
+    match h.ret with
+    | none => collectHooks st rest acc
+    | some kvs =>
+      let rec go : List (Key × Val) → List ((Scope × Sel × String) × Val) →
+          Except Err (List ((Scope × Sel × String) × Val))
+        | [], acc => .ok acc
+        | (k, v) :: more, acc =>
+          match st.parseKey k with
+          | .error e => .error e
+          | .ok nk => if acc.any (fun x => x.1 == nk) then .error .valueError
+                      else go more (acc ++ [(nk, v)])
+      match go kvs acc with
+      | .error e => .error e
+      | .ok acc' => collectHooks st rest acc'
+
+def applyNormal (st : State) (upd : List ((Scope × Sel × String) × Val)) : State :=
+  upd.foldl (fun st x =>
+    let (scope, full, arg) := x.1
+    let provd := (AList.lookup (scope, full) st.prov).getD []
+    { st with config := setParam st.config (scope, full) arg x.2,
+              prov := AList.set (scope, full) (AList.set arg none provd) st.prov }) st
+
+def finalize (st : State) : Except Err State :=
+  if st.locked then .error .runtimeError else
+  if !st.builtinHooksOk then .error .valueError else
+  match collectHooks st st.hooks [] with
+  | .error e => .error e
+  | .ok upd => .ok { (applyNormal st upd) with locked := true }
+
+/-! ### constants (2769-2810) and `clear_config` (1004-1029) -/
+
+def defConstant (st : State) (name : Sel) (nameValid : Bool) (v : Val) : Except Err State :=
+  if !nameValid then .error .valueError else
+  if !st.interactive && !(st.constants.matching name).isEmpty then .error .valueError else
+  .ok { st with constants := st.constants.set name v }
+
+def initConstants : SelMap Val := (SelMap.empty : SelMap Val).set ["gin", "REQUIRED"] .required
+
+def clear (st : State) (clearConstants : Bool) : State :=
+  { st with locked := false, config := [], prov := [], singletons := [], imports := [],
+            operative := [],
+            constants := if clearConstants then initConstants else st.constants }
+
+end State
+
+/-! ### histories of operations -/
+
+inductive Op where
+  | register (r : State.RegReq)
+  | bind (k : Key) (v : Val)
+  /-- a binding written as a one-member block: the block header is resolved first (2380-2384) -/
+  | bindBlock (k : Key) (v : Val)
+  | query (k : Key)
+  | call (sel : Sel) (enter : List ScopeArg) (args : List Val) (kwargs : AList String Val)
+  | getb (sel : Sel) (σ : Scope) (inherit : Bool)
+  | addHook (h : Hook)
+  | finalize
+  | clear (constants : Bool)
+  | constant (name : Sel) (nameValid : Bool) (v : Val)
+  | interactive (on : Bool)
+  | observe (what : String)
+  | enter (cur : Scope) (arg : ScopeArg)
+  | unlock (body : List Op) (raises : Bool)
+deriving Inhabited
+
+inductive Out where
+  | ok
+  | err (e : Err)
+  | callErr (e : CallErr)
+  | value (v : Val)
+  | received (r : Received) (σ : Scope)
+  | kvs (l : AList String Val)
+  | store (s : Store)
+  | flag (b : Bool)
+  | scope (s : Scope)
+  | names (l : List String)
+  | body (outs : List Out)
+deriving Inhabited
+
+/-- gin's own configurables: `gin.macro(value)`, `gin.constant()`, `gin.singleton(constructor)` -/
+def initRegistry : SelMap Entry :=
+  ((SelMap.empty : SelMap Entry).set State.macroSel
+      { cfg := { selector := State.macroSel, sig := { pos := [("value", none)] } }, objId := 900001 }
+    |>.set State.constSel { cfg := { selector := State.constSel, sig := {} }, objId := 900002 }
+    |>.set ["gin", "singleton"]
+      { cfg := { selector := ["gin", "singleton"], sig := { pos := [("constructor", none)] } }, objId := 900003 })
+
+def initState : State := { constants := State.initConstants, registry := initRegistry }
+
+def foldEnter (enter : List ScopeArg) : Option Scope :=
+  enter.foldl (fun acc a => acc.bind (fun cur => enterScope cur a)) (some [])
+
+mutual
+  def step (st : State) : Op → State × Out
+    | .register r => match st.register r with
+        | .ok st' => (st', .ok) | .error e => (st, .err e)
+    | .bind k v => match st.bind k v with
+        | .ok st' => (st', .ok) | .error e => (st, .err e)
+    | .bindBlock k v =>
+        match st.registry.getMatch k.sel with
+        | .ambiguous _ => (st, .err .keyError)
+        | .none => (st, .err .valueError)
+        | .one _ _ => match st.bind k v with
+          | .ok st' => (st', .ok) | .error e => (st, .err e)
+    | .query k => match st.query k with
+        | .ok v => (st, .value v) | .error e => (st, .err e)
+    | .call sel enter args kwargs =>
+        match foldEnter enter with
+        | none => (st, .err .valueError)
+        | some σ =>
+          match st.call id sel σ args kwargs with
+          | (st', .failed e) => (st', .callErr e)
+          | (st', .received r _) => (st', .received r σ)
+    | .getb sel σ inherit =>
+        (st, .kvs (if inherit then getBindings st.config sel σ else getBindingsStrict st.config sel σ))
+    | .addHook h => ({ st with hooks := st.hooks ++ [h] }, .ok)
+    | .finalize => match st.finalize with
+        | .ok st' => (st', .ok) | .error e => (st, .err e)
+    | .clear c => (st.clear c, .ok)
+    | .constant name valid v => match st.defConstant name valid v with
+        | .ok st' => (st', .ok) | .error e => (st, .err e)
+    | .interactive on => ({ st with interactive := on }, .ok)
+    | .observe what =>
+        (st, match what with
+          | "locked" => .flag st.locked
+          | "operative" => .store st.operative
+          | "config" => .store st.config
+          | "registry" => .names (st.registry.keys.map (fun s => ".".intercalate s))
+          | "constants" => .names (st.constants.keys.map (fun s => ".".intercalate s))
+          | _ => .err (.other "bad-observe"))
+    | .enter cur arg => match enterScope cur arg with
+        | some s => (st, .scope s) | none => (st, .err .valueError)
+    | .unlock body _ =>
+        let (st', outs) := runOps { st with locked := false } body
+        ({ st' with locked := st.locked }, .body outs)
+  def runOps (st : State) : List Op → State × List Out
+    | [] => (st, [])
+    | op :: rest =>
+        let (st1, o) := step st op
+        let (st2, os) := runOps st1 rest
+        (st2, o :: os)
+end
+
 end Gin
